@@ -20,7 +20,8 @@ RULE = ("Hypothesis generates a scenario (entry kinds; home / $topdir/.Trash/$ui
         "operation budget of 20*N+2000 operations (a wall-clock backstop hit without operations "
         "is reported as inconclusive, never as a violation); outcome is {trashed, exit 0} or "
         "{exit != 0 and a diagnostic on stderr}; the final state satisfies C01 (each entry fully "
-        "trashed or untouched, no stray .trashinfo, no orphan payload, frame unchanged). "
+        "trashed or untouched, no stray .trashinfo, no orphan payload, frame unchanged; and, as a "
+        "separate clause, a complete copy of every entry exists somewhere). "
         "Non-trivial: the fault hits an operation of the run; distinct by (scenario class, "
         "operation kind, errno, mode, outcome).")
 ASSUMPTIONS = ["directory-wide persistence is not combined with EEXIST (retrying another name is the "
@@ -78,6 +79,13 @@ def judge(out, case, spec, files, before, after, res, tags, what, n_ref):
         s, info = pa.state_of(f)
         if s == "X":
             out.fail("not_conserved", "%s: %s: %s (exit %d)" % (what, f, info, res.code), **tags)
+            # stronger than "neither T nor U": is a complete copy of the entry left ANYWHERE?
+            sigma = sandbox.subtree(before, f, mtime=False)
+            top = before[f].t if f in before else None
+            if top and not any(n.t == top and sandbox.subtree(after, p, mtime=False) == sigma
+                               for p, n in after.items()):
+                out.fail("data_lost", "%s: no complete copy of %s exists anywhere afterwards "
+                         "(exit %d)" % (what, f, res.code), **tags)
         all_t = all_t and s == "T"
     si, sp = pa.leftovers()
     if si:
